@@ -11,6 +11,7 @@ import (
 	"reflect"
 	"regexp"
 	"time"
+	"unsafe"
 )
 
 type vfEntry struct {
@@ -105,8 +106,124 @@ func vfCatch(f func()) (panicked bool, msg string) {
 	return false, ""
 }
 
-func vfFreeze(roots ...interface{}) {}
-func vfFrozenWrites() int           { return 0 }
+// vfFreeze marks everything reachable from the roots (and the package's
+// global state) as frozen. Under the symbolic engine every store into a frozen
+// object is counted. Natively a deep snapshot is taken instead and
+// vfFrozenWrites reports whether any root differs from its snapshot.
+var vfFrozenRoots, vfFrozenSnaps []interface{}
+
+func vfFreeze(roots ...interface{}) {
+	vfFrozenRoots, vfFrozenSnaps = nil, nil
+	for _, r := range roots {
+		vfFrozenRoots = append(vfFrozenRoots, r)
+		vfFrozenSnaps = append(vfFrozenSnaps, vfDeepCopy(r))
+	}
+}
+
+func vfFrozenWrites() int {
+	n := 0
+	for i := range vfFrozenRoots {
+		if !vfDeepEqual(vfFrozenRoots[i], vfFrozenSnaps[i]) {
+			n++
+		}
+	}
+	vfFrozenRoots, vfFrozenSnaps = nil, nil
+	return n
+}
+
+// vfDeepCopy copies a value structurally, unexported fields included.
+func vfDeepCopy(v interface{}) interface{} {
+	if v == nil {
+		return nil
+	}
+	src := reflect.ValueOf(v)
+	dst := reflect.New(src.Type()).Elem()
+	vfCopyInto(dst, src, map[uintptr]reflect.Value{})
+	return dst.Interface()
+}
+
+func vfSettable(v reflect.Value) reflect.Value {
+	if v.CanSet() {
+		return v
+	}
+	return reflect.NewAt(v.Type(), unsafe.Pointer(v.UnsafeAddr())).Elem()
+}
+
+func vfReadable(v reflect.Value) reflect.Value {
+	if v.CanInterface() || !v.CanAddr() {
+		return v
+	}
+	return reflect.NewAt(v.Type(), unsafe.Pointer(v.UnsafeAddr())).Elem()
+}
+
+func vfCopyInto(dst, src reflect.Value, seen map[uintptr]reflect.Value) {
+	dst = vfSettable(dst)
+	src = vfReadable(src)
+	switch src.Kind() {
+	case reflect.Ptr:
+		if src.IsNil() {
+			return
+		}
+		switch src.Type() {
+		case reflect.TypeOf((*regexp.Regexp)(nil)), reflect.TypeOf((*time.Location)(nil)):
+			dst.Set(src)
+			return
+		}
+		if c, ok := seen[src.Pointer()]; ok {
+			dst.Set(c)
+			return
+		}
+		n := reflect.New(src.Type().Elem())
+		seen[src.Pointer()] = n
+		vfCopyInto(n.Elem(), src.Elem(), seen)
+		dst.Set(n)
+	case reflect.Interface:
+		if src.IsNil() {
+			return
+		}
+		e := src.Elem()
+		n := reflect.New(e.Type()).Elem()
+		vfCopyInto(n, e, seen)
+		dst.Set(n)
+	case reflect.Struct:
+		if src.Type() == reflect.TypeOf(time.Time{}) {
+			dst.Set(src)
+			return
+		}
+		for i := 0; i < src.NumField(); i++ {
+			vfCopyInto(dst.Field(i), src.Field(i), seen)
+		}
+	case reflect.Slice:
+		if src.IsNil() {
+			return
+		}
+		n := reflect.MakeSlice(src.Type(), src.Len(), src.Len())
+		for i := 0; i < src.Len(); i++ {
+			vfCopyInto(n.Index(i), src.Index(i), seen)
+		}
+		dst.Set(n)
+	case reflect.Array:
+		for i := 0; i < src.Len(); i++ {
+			vfCopyInto(dst.Index(i), src.Index(i), seen)
+		}
+	case reflect.Map:
+		if src.IsNil() {
+			return
+		}
+		n := reflect.MakeMap(src.Type())
+		it := src.MapRange()
+		for it.Next() {
+			k := reflect.New(it.Key().Type()).Elem()
+			vfCopyInto(k, it.Key(), seen)
+			val := reflect.New(it.Value().Type()).Elem()
+			vfCopyInto(val, it.Value(), seen)
+			n.SetMapIndex(k, val)
+		}
+		dst.Set(n)
+	default:
+		dst.Set(src)
+	}
+}
 
 func vfDisjoint(a, b interface{}) bool {
 	sa := map[uintptr]bool{}
